@@ -503,11 +503,12 @@ class Sim:
                 c.sample_num = v
 
     def mvr_for(self, i):
-        """The manual record for card i (phantom CVRs cannot be found)."""
+        """The manual record for card i (a card behind a phantom CVR cannot be found, unless the election says that one was:
+        a card the manifest lists but the CVR export lacks)."""
         CVR = self.L["CVR"]
         cv = self.cvr_list[i]
         m = self.spec["mvrs"].get(str(i))
-        if cv.phantom or (m and m["kind"] == "phantom"):
+        if (m and m["kind"] == "phantom") or (cv.phantom and not (m and m["kind"] == "votes")):
             return CVR(id=cv.id, votes={}, phantom=True)
         if m and m["kind"] == "votes":
             return CVR(id=cv.id, votes=copy.deepcopy(m["votes"]))
@@ -519,7 +520,7 @@ class Sim:
         """Reference view: ('phantom'|'missing'|'votes', marks)."""
         cv = self.cvr_list[i]
         m = self.spec["mvrs"].get(str(i))
-        if cv.phantom or (m and m["kind"] == "phantom"):
+        if (m and m["kind"] == "phantom") or (cv.phantom and not (m and m["kind"] == "votes")):
             return "phantom", None
         votes = m["votes"] if (m and m["kind"] == "votes") else (self.spec["cards"][i]["votes"] if i < len(self.spec["cards"]) else {})
         if cid not in votes:
